@@ -362,9 +362,37 @@ def oracle(tr, info):
 
 # --------------------------------------------------------------------------- the check
 
+NAMED = [True]
+
+
+def probe_named(ctx):
+    """C12's builder variant: does GraphBuilder promote a literal outside the cached path (a list mixing float and
+    int) under a generated name (repo fix 4f6059b), or raise ValueError('Initializer must have a name')?"""
+    import onnx_ir as ir
+    from onnxscript._internal import builder as B
+
+    g = ir.Graph(name="g", inputs=[], outputs=[], nodes=[], opset_imports={"": TR.OPSET})
+    gb = B.GraphBuilder(g)
+    x = gb.input("x", dtype=ir.DataType.FLOAT, shape=[2])
+    try:
+        y = gb.op.Add(x, [1.5, 2])
+        c = y.producer().inputs[1]
+        if c is not None and c.name in g.initializers and c.name:
+            return True
+        ctx.tie_broken("translator", "probe:uncached-constant", f"unexpected operand {c!r} for a mixed-type list literal")
+        return True
+    except ValueError as e:
+        if "must have a name" in str(e):
+            return False
+        ctx.tie_broken("translator", "probe:uncached-constant", f"unexpected error {e!r} for a mixed-type list literal")
+        return False
+
+
 def run_lits(ctx):
     t0 = time.time()
     rng = ctx.rng
+    NAMED[0] = probe_named(ctx)
+    ctx.cover(lits_probed_builder_names_uncached_constants=NAMED[0])
     # the registry theorems and the lookup quantify over: regenerated from onnx.defs by C12's translator
     if hasattr(C12, "regenerate"):
         C12.regenerate(ctx)
@@ -460,7 +488,7 @@ def run_lits(ctx):
     if cases:
         ctx.sample({"model": "C/literals", "case": cases[0][:1200]})
     bodies = [f"Definition cases : list lit_case := {clist(cases[a:a + SHARD])}.\n"
-              f"Eval vm_compute in (lits_disagreeing {TR.OPSET}%N 0 cases).\n" for a in range(0, len(cases), SHARD)]
+              f"Eval vm_compute in (lits_disagreeing {common.cbool(NAMED[0])} {TR.OPSET}%N 0 cases).\n" for a in range(0, len(cases), SHARD)]
     res = ctx.coq_eval_shards(REQ, bodies, par=4) if bodies else []
     bad = []
     for k, (okc, vals, raw) in enumerate(res):
@@ -491,7 +519,7 @@ def run_lits(ctx):
         if js:
             okc, vals, raw = ctx.coq_eval(REQ, "".join(
                 f"Eval vm_compute in (let '(name, since, targs, obs) := {cases[j]} in "
-                f"(match schema_at name {TR.OPSET}%N with Some s => promote_call (TC s targs) | None => None end, obs)).\n" for j in js))
+                f"(match schema_at name {TR.OPSET}%N with Some s => promote_call {common.cbool(NAMED[0])} (TC s targs) | None => None end, obs)).\n" for j in js))
             detail = " | (derived, observed) = " + (" ;; ".join(v[:700] for v in vals) if okc else raw[-400:])
         if verdict is not None:
             ctx.violation(f"C18:literal:{cls}", f"trace {t}: {verdict}; {why}", {"trace": repr(tr)[:6000], "why": why})
